@@ -204,6 +204,7 @@ func runC02(c *Ctx) {
 		"option (list (N * doc)) * option (list (N * doc) * list N) * list N * (list (N * doc) * bool)", "chk_file", fc, fr, 300)
 	runC02Wire(c)
 	runC02ReadOnly(c)
+	runC02ReadOnlyHistory(c)
 	c.Emit("ro", "metadata.NewReadMetadata vs Backends.ro_save", im,
 		"option (list (N * doc)) * (list (N * doc) * list N) * list N * (list (N * doc) * bool)", "chk_ro", rc, rr, 300)
 }
